@@ -284,14 +284,21 @@ func (fr *Frame) applyContract(v ssa.Value, ct *Contract, name string, c *ssa.Ca
 			e2.resolve = func(nm string) (*Term, bool) { return fr.resolveAt(nm, in, st) }
 			e2.resolveAddr = fr.allocRef
 			t, err := e2.Parse(ac.Expr)
+			clauseTxt := ac.Expr
 			if err != nil {
-				panic(&exprError{err.Error()})
+				if !strings.Contains(err.Error(), "unknown identifier") {
+					panic(&exprError{err.Error()})
+				}
+				// a name of the clause has no definition that reaches this call site (e.g. a new call of the callee before the
+				// local it speaks about is computed): the clause cannot hold here; the obligation fails unless the site is dead
+				t = False
+				clauseTxt = ac.Expr + "   [does not bind at this call site: " + err.Error() + "]"
 			}
 			label := ac.Label
 			if label == "" {
 				label = fmt.Sprintf("%d", i+1)
 			}
-			vc.oblige(fmt.Sprintf("at:%s[%s]", ord, label), "at_call", ac.Props, vc.pos(in.Pos()), alive, t, ac.Expr)
+			vc.oblige(fmt.Sprintf("at:%s[%s]", ord, label), "at_call", ac.Props, vc.pos(in.Pos()), alive, t, clauseTxt)
 		}
 	}
 	// 2. exit conditions of the caller at terminal calls
